@@ -4,10 +4,12 @@ Model: Model/Signing.lean.  Lemmas: Lemmas/Signing.lean, Lemmas/SigningInv.lean.
 The per-step theorems are proved for all states; the history theorems (`final_status_absorbing`,
 `attempt_only_grows`, `success_only_by_aggregating_a_complete_set`, `complete_set_succeeds_at_next_endblock`) rest on the
 invariant `HInv` of Lemmas/SigningHist.lean, proved preserved by EVERY operation including the end-blocker
-(`history_hinv`).  Not proved: liveness in the sense "a WAITING signing always has a scheduled expiry" (it needs every
-committee to assign at least one member, which is the sampler's contract — C09 — and is monitored).
+(`history_hinv`).  LIVENESS (`every_signing_terminates`, Lemmas/SigningLive.lean): over every well-formed run — blocks of
+consecutive heights, requests stamped with the height of the block being built, non-empty duplicate-free committees (the
+sampler's contract, C09), parameter changes within bounds P and M — a signing that exists at height H with attempt a is
+SUCCESS or FALLEN once the chain has reached height H + 1 + (M − a + 1)·P, whatever else happens in between.
 -/
-import BandVerif.Lemmas.SigningHist
+import BandVerif.Lemmas.SigningLive
 import BandVerif.Props.C05
 
 namespace C10
@@ -297,9 +299,121 @@ theorem every_expired_attempt_is_processed (s : State) (h : HInv s) (height nowN
   exact all_expired_consumed _ (aggregated_hinv s h) height nowNs (by simp only [a1, a3]; exact hsorted) i a atm (by simp only [a3]; exact hm)
     (by simp only [a1]; exact ha) hexp
 
+/-! ## liveness: every signing terminates -/
+
+/-- the height of the last finished block after an operation -/
+def nextH (H : Int) : C05.Op → Int
+  | .endBlock _ h _ => h
+  | _ => H
+
+/-- a well-formed operation at block height `H` (the last finished block): requests carry the height of the block being
+    built (at most `H + 1`) and a non-empty duplicate-free committee; the next end-block is that of height `H + 1` and its
+    retry committees are non-empty and duplicate-free; parameter changes stay within `P` (signing period) and `M` (attempts) -/
+def OpWF (P M : Nat) (H : Int) : C05.Op → Prop
+  | .request _ _ _ c h => c.Nodup ∧ c ≠ [] ∧ h ≤ H + 1
+  | .endBlock c h _ => h = H + 1 ∧ (∀ i, (c i).Nodup) ∧ (∀ i, c i ≠ [])
+  | .setParams p a _ _ => p ≤ P ∧ a ≤ M
+  | _ => True
+
+def RunWF (P M : Nat) : Int → List C05.Op → Prop
+  | _, [] => True
+  | H, op :: rest => OpWF P M H op ∧ RunWF P M (nextH H op) rest
+
+def finalH (H : Int) (ops : List C05.Op) : Int := ops.foldl nextH H
+
+theorem step_G {P M : Nat} (s : State) (H : Int) (op : C05.Op) (g : G P M s H) (wf : OpWF P M H op) :
+    G P M (C05.apply s op) (nextH H op) := by
+  cases op with
+  | submitDE m k =>
+    show G P M (enqueue s m k).1 H
+    obtain ⟨a, b, c, d, e⟩ := enqueue_qframe s m k
+    have q : QExt s (enqueue s m k).1 [] (H + 1 + P) := QExt.of_frame _ _ _ a b c d
+    exact g_of_qext g q (step_hinv s (.submitDE m k) g.hinv trivial) (Int.le_refl _) (fun i sg' hs => Or.inl (by rw [e] at hs; exact hs))
+  | resetDE m =>
+    show G P M (resetDE s m) H
+    have q : QExt s (resetDE s m) [] (H + 1 + P) := QExt.of_frame _ _ _ rfl rfl rfl rfl
+    exact g_of_qext g q (step_hinv s (.resetDE m) g.hinv trivial) (Int.le_refl _) (fun i sg' hs => Or.inl hs)
+  | request a b c d e => exact request_G g a b c d e wf.1 wf.2.1 wf.2.2
+  | submit a b c d =>
+    show G P M (submit s a b c d).1 H
+    obtain ⟨x1, x2, x3, x4, x5⟩ := submit_qframe s a b c d
+    have q : QExt s (submit s a b c d).1 [] (H + 1 + P) := QExt.of_frame _ _ _ x1 x2 x3 x4
+    exact g_of_qext g q (submit_hinv s a b c d g.hinv) (Int.le_refl _) (fun i sg' hs => Or.inl (by rw [x5] at hs; exact hs))
+  | endBlock c ht n =>
+    obtain ⟨e, hc, hcne⟩ := wf
+    subst e
+    exact endBlock_G g c n hc hcne
+  | activate m n =>
+    show G P M (activate s m n).1 H
+    obtain ⟨x1, x2, x3, x4, x5⟩ := activate_qframe s m n
+    have q : QExt s (activate s m n).1 [] (H + 1 + P) := QExt.of_frame _ _ _ x1 x2 x3 x4
+    exact g_of_qext g q (step_hinv s (.activate m n) g.hinv trivial) (Int.le_refl _) (fun i sg' hs => Or.inl (by rw [x5] at hs; exact hs))
+  | setParams p a d f =>
+    exact ⟨step_hinv s (.setParams p a d f) g.hinv trivial, ⟨g.live.l1, g.live.l2⟩, g.bnd, wf.1, wf.2, g.rng⟩
+
+theorem step_Prog {P M : Nat} {D : Int} {sid : Nat} (s : State) (H : Int) (op : C05.Op) (g : G P M s H) (hP : 1 ≤ P) (wf : OpWF P M H op)
+    (hp : Prog P M D sid s H) : Prog P M D sid (C05.apply s op) (nextH H op) := by
+  cases op with
+  | submitDE m k =>
+    show Prog P M D sid (enqueue s m k).1 H
+    obtain ⟨a, b, c, d, e⟩ := enqueue_qframe s m k
+    exact prog_of_qext g.live (QExt.of_frame _ _ (0 : Int) a b c d) (fun _ h => by cases h) (by rw [e]) hp
+  | resetDE m => exact hp
+  | request a b c d e => exact request_prog g a b c d e wf.2.1 hp
+  | submit a b c d =>
+    show Prog P M D sid (submit s a b c d).1 H
+    obtain ⟨x1, x2, x3, x4, x5⟩ := submit_qframe s a b c d
+    exact prog_of_qext g.live (QExt.of_frame _ _ (0 : Int) x1 x2 x3 x4) (fun _ h => by cases h) (by rw [x5]) hp
+  | endBlock c ht n =>
+    obtain ⟨e, hc, hcne⟩ := wf
+    subst e
+    exact endBlock_prog g hP c n hc hcne hp
+  | activate m n =>
+    show Prog P M D sid (activate s m n).1 H
+    obtain ⟨x1, x2, x3, x4, x5⟩ := activate_qframe s m n
+    exact prog_of_qext g.live (QExt.of_frame _ _ (0 : Int) x1 x2 x3 x4) (fun _ h => by cases h) (by rw [x5]) hp
+  | setParams p a d f => exact hp
+
+theorem run_G_Prog {P M : Nat} {D : Int} {sid : Nat} (hP : 1 ≤ P) (ops : List C05.Op) (s : State) (H : Int) (g : G P M s H)
+    (wf : RunWF P M H ops) (hp : Prog P M D sid s H) :
+    G P M (ops.foldl C05.apply s) (finalH H ops) ∧ Prog P M D sid (ops.foldl C05.apply s) (finalH H ops) := by
+  induction ops generalizing s H with
+  | nil => exact ⟨g, hp⟩
+  | cons op rest ih =>
+    exact ih (C05.apply s op) (nextH H op) (step_G s H op g wf.1) wf.2 (step_Prog s H op g hP wf.1 hp)
+
+/-- PROPERTY (every signing terminates): take any state of a well-formed run at block height `H` and any signing in it,
+    at attempt `a`.  After ANY well-formed continuation — more requests, submissions, nonce traffic, activations,
+    parameter changes within `P`/`M`, end-blocks with any committees — that brings the chain to height
+    `H + 1 + (M − a + 1)·P` or beyond, the signing is SUCCESS or FALLEN. -/
+theorem every_signing_terminates {P M : Nat} (hP : 1 ≤ P) (s : State) (H : Int) (g : G P M s H) (sid : Nat) (sg : Sig)
+    (hs : s.signings sid = some sg) (ops : List C05.Op) (wf : RunWF P M H ops)
+    (hlong : H + 1 + (((M - sg.attempt : Nat) : Int) + 1) * (P : Int) ≤ finalH H ops) :
+    ∃ sg', (ops.foldl C05.apply s).signings sid = some sg' ∧ (sg'.status = stSuccess ∨ sg'.status = stFallen) := by
+  obtain ⟨g', p'⟩ := run_G_Prog hP ops s H g wf (prog_init g sg hs)
+  exact prog_final g' p' hlong
+
 /-- the empty chain state satisfies the invariant (so every history from genesis is covered) -/
 theorem hinv_demo : HInv demo := by
   refine ⟨?_, ?_, ?_, ?_, ?_, ?_, ?_, ?_⟩ <;> simp [demo] <;> omega
+
+/-- the chain state before any signing was requested -/
+def genesis : State := { demo with signings := fun _ => none, count := 0 }
+
+/-- the run invariant holds at genesis (so every well-formed run from genesis is covered) -/
+theorem g_genesis : G 2 2 genesis 0 := by
+  refine ⟨⟨?_, ?_, ?_, ?_, ?_, ?_, ?_, ?_⟩, ⟨?_, ?_⟩, ?_, by decide, by decide, ?_⟩ <;> simp [genesis, demo]
+
+/-- non-vacuity of `every_signing_terminates`: a request at genesis, then five blocks in which nobody signs; the hypotheses
+    hold with P = M = 2, the deadline is height 5, and the signing has indeed FALLEN after two attempts -/
+def idleRun : List C05.Op :=
+  [.endBlock (fun _ => [2]) 1 0, .endBlock (fun _ => [1]) 2 0, .endBlock (fun _ => [1]) 3 0, .endBlock (fun _ => [1]) 4 0, .endBlock (fun _ => [1]) 5 0]
+
+example : RunWF 2 2 0 idleRun ∧ (0 : Int) + 1 + (((2 - 1 : Nat) : Int) + 1) * ((2 : Nat) : Int) ≤ finalH 0 idleRun := by
+  simp [idleRun, RunWF, OpWF, nextH, finalH]
+
+example : ((C05.apply genesis (.request 100 true (fun _ => 0) [1] 1)).signings 1) = some ⟨stWaiting, 1⟩ ∧
+    ((idleRun.foldl C05.apply (C05.apply genesis (.request 100 true (fun _ => 0) [1] 1))).signings 1) = some ⟨stFallen, 2⟩ := by decide
 
 /-- a complete set is aggregated by the next end-block; an idle attempt times out at its expiry height and is retried -/
 example : (endBlock (submit (initiate demo 1 [1] 10).1 1 1 true true).1 (fun _ => [2]) 11 0).signings 1 = some ⟨stSuccess, 1⟩ := by decide
